@@ -22,7 +22,7 @@ RULE = ("base = one run to termination; partner = first call with initialize_mod
         "compositions with parts from {1,2,3,7,30,365,rest+1} for 1-3 season windows; non-trivial = "
         "composition with >= 2 parts; distinct = (spec digest, composition)")
 ASSUMPTIONS = [
-    "no call is made after termination (outside the property: the model then re-executes the last day on converted tables)",
+    "a call made after termination is an overshoot like any other: it must not raise, change the tables or the status",
     "process_outputs stays False; tables are compared by value (ndarray vs DataFrame)",
 ]
 FLOORS = {
@@ -199,6 +199,11 @@ def run_case(case):
                 parts[-1] += int(rng.choice([1, 10 ** 6]))
             comps.append(tuple(parts))
         cov["random_compositions"] += len(comps)
+    # a driver that does not know how long the run is keeps calling: every fourth composition
+    # is followed by one or two more calls after termination
+    comps = [c + tuple(int(x) for x in ((1,), (5, 1), (10 ** 6,))[i % 3]) if i % 4 == 1 else c
+             for i, c in enumerate(comps)]
+    cov["compositions_with_calls_after_termination"] += sum(1 for i in range(len(comps)) if i % 4 == 1)
     n2 = 0
     prev_model = None
     for comp in comps:
